@@ -93,7 +93,7 @@ func GenCase(t *rapid.T, mode string) Case {
 			c.Ops = append(c.Ops, Op{K: "clock", M: m, D: vkit.PickU(t, deltas, "d")})
 		case k < 65:
 			c.Ops = append(c.Ops, Op{K: "clockall", D: vkit.PickU(t, deltas, "d")})
-		case k < 75:
+		case k < 72:
 			// hand-over: the leader steps down or crashes, another member takes over and grants
 			to := mem()
 			kind := vkit.PickU(t, []string{"resign", "crash", "crash"}, "how")
@@ -107,6 +107,19 @@ func GenCase(t *rapid.T, mode string) Case {
 			}
 			c.Ops = append(c.Ops, Op{K: "campaign", M: to}, Op{K: "gen", M: to, Count: vkit.PickU(t, counts, "count")})
 			cur = to
+		case k < 75 && mode != "enum":
+			// the allocator daemon's window update races with the leader loop's step-down (scheduling points before and
+			// after every etcd RPC); then another member leads and grants, then the first one wins again and a request
+			// reaches it before its initialization has finished
+			other := mem()
+			c.Ops = append(c.Ops, Op{K: "clockall", D: vkit.PickU(t, []int64{c.Cfg.SaveMs - 1, c.Cfg.SaveMs + 1, 50}, "tick3")},
+				Op{K: "race", M: m, After: true, Tasks: []Task{{K: "update"}, {K: "stepdown"}},
+					Sched: rapid.SliceOfN(rapid.IntRange(0, 3), 0, 10).Draw(t, "sdsched")},
+				Op{K: "resign", M: other},
+				Op{K: "campaign", M: other}, Op{K: "gen", M: other, Count: vkit.PickU(t, counts, "count")},
+				Op{K: "clockall", D: vkit.PickU(t, []int64{0, 1, 50}, "tick4")}, Op{K: "update", M: other}, Op{K: "gen", M: other, Count: 1},
+				Op{K: "resign", M: other},
+				Op{K: "campaign", M: m, Mid: vkit.PickU(t, []uint32{1, 1, 10}, "mid3")}, Op{K: "gen", M: m, Count: 1})
 		case k < 76:
 			c.Ops = append(c.Ops, Op{K: "campaign", M: m, Mid: vkit.PickU(t, []uint32{0, 0, 1, 10}, "mid")})
 		case k < 77:
